@@ -140,3 +140,24 @@ def real_volumes(m, mode):
                     element_type=t, update=False)
         out.update(zip([int(i) for i in blk.ids], [float(x) for x in v[:, 0]]))
     return out
+
+
+STAGE = ['']
+
+
+def stage(name):
+    """remember which real API call is running (an exception there is reported as `raises:<stage>`)"""
+    STAGE[0] = name
+
+
+def guarded(ctx, case, sample_key, f, *a):
+    """run the real-API observation; an exception on an input inside the property's quantifier is a failure of the
+    property (nothing is returned), reported with the stage that raised"""
+    try:
+        return f(*a)
+    except Exception as e:  # noqa
+        import traceback
+        ctx.case(sample_key, sample={'raised_in': STAGE[0], 'error': repr(e)}, nontrivial=True)
+        ctx.fail(f'raises:{STAGE[0]}:{type(e).__name__}', f'{STAGE[0]} raised {type(e).__name__} on a valid mesh', case,
+                 {'stage': STAGE[0], 'error': repr(e), 'trace': traceback.format_exc()[-600:]})
+        return None
